@@ -297,6 +297,8 @@ int main(void)
 			/* Long log2 : 2^log2 + {0, 1, 5} cycles on depths that do not divide a power of two */
 			unsigned long long base = 1ull << drv_arg(&c, 0);
 			longrun(3, 4, base); longrun(3, 1, base + 1); longrun(7, 12, base + 5); longrun(5, 8, base - 1);
+			/* large messages: the BYTES handed out pass 2^32 long before the claims do */
+			if (base >= 65536 && base <= (1ull << 24)) { longrun(3, 60000, base + 6000); longrun(7, 65535, base + 3); longrun(5, 4096, base + 1); }
 		}
 		else if (drv_is(&c, "Straddle")) {
 			/* the caller's memory lies across the 4 GiB boundary: a buffer's address has bits above 2^32 or not */
